@@ -7,5 +7,5 @@ P=$1; shift
 (cd "$D/repo" && patch -p1 --no-backup-if-mismatch < "$P" >/dev/null) || { echo "PATCH FAILED"; exit 3; }
 mkdir -p "$D/out"
 for prop in "$@"; do
-  /verif/bin/govc check --property $prop --repo "$D/repo" --verif "$D/out" 2>&1 | grep -v "^note" | sed "s|$D/repo/||g; s|replay=[^ ]* ||" | cut -c1-330 | tail -6
+  ${GOVC:-/verif/bin/govc} check --property $prop --repo "$D/repo" --verif "$D/out" 2>&1 | grep -v "^note" | sed "s|$D/repo/||g; s|replay=[^ ]* ||" | cut -c1-330 | tail -6
 done
